@@ -24,7 +24,7 @@ macro_rules! dispatch {
 macro_rules! matrix_all {
     ($bs:expr, $w:expr, $C:ident => $body:expr) => {
         dispatch!($bs, $w, $C => $body ;
-            (1,1,U1,U1), (2,3,U2,U3), (3,2,U3,U2), (4,1,U4,U1), (4,4,U4,U4), (5,5,U5,U5), (7,2,U7,U2),
+            (1,1,U1,U1), (1,4,U1,U4), (2,3,U2,U3), (2,5,U2,U5), (3,2,U3,U2), (4,1,U4,U1), (4,4,U4,U4), (4,8,U4,U8), (5,5,U5,U5), (7,2,U7,U2),
             (8,1,U8,U1), (8,3,U8,U3), (12,4,U12,U4), (16,1,U16,U1), (16,2,U16,U2), (16,3,U16,U3),
             (16,8,U16,U8), (24,2,U24,U2), (32,4,U32,U4), (48,3,U48,U3), (64,2,U64,U2), (255,2,U255,U2))
     };
@@ -32,7 +32,7 @@ macro_rules! matrix_all {
 macro_rules! matrix_div4 {
     ($bs:expr, $w:expr, $C:ident => $body:expr) => {
         dispatch!($bs, $w, $C => $body ;
-            (4,1,U4,U1), (4,4,U4,U4), (8,1,U8,U1), (8,3,U8,U3), (12,4,U12,U4), (16,1,U16,U1), (16,2,U16,U2),
+            (4,1,U4,U1), (4,4,U4,U4), (4,8,U4,U8), (8,1,U8,U1), (8,3,U8,U3), (12,4,U12,U4), (16,1,U16,U1), (16,2,U16,U2),
             (16,3,U16,U3), (16,8,U16,U8), (24,2,U24,U2), (32,4,U32,U4), (48,3,U48,U3), (64,2,U64,U2))
     };
 }
@@ -106,7 +106,7 @@ fn toy_obj(bs: usize, w: usize, key: &[u8]) -> Option<Box<dyn Obj>> {
             match ($bs, $w) { $( ($b, $wl) => Some(ToyObj::<cipher::consts::$BS, cipher::consts::$W>::new(key)), )* _ => None }
         };
     }
-    t!(bs, w; (1,1,U1,U1), (2,3,U2,U3), (3,2,U3,U2), (4,1,U4,U1), (4,4,U4,U4), (5,5,U5,U5), (7,2,U7,U2),
+    t!(bs, w; (1,1,U1,U1), (1,4,U1,U4), (2,3,U2,U3), (2,5,U2,U5), (3,2,U3,U2), (4,1,U4,U1), (4,4,U4,U4), (4,8,U4,U8), (5,5,U5,U5), (7,2,U7,U2),
         (8,1,U8,U1), (8,3,U8,U3), (12,4,U12,U4), (16,1,U16,U1), (16,2,U16,U2), (16,3,U16,U3),
         (16,8,U16,U8), (24,2,U24,U2), (32,4,U32,U4), (48,3,U48,U3), (64,2,U64,U2), (255,2,U255,U2))
 }
@@ -145,7 +145,7 @@ fn main() {
     for l in stdin.lock().lines() {
         let l = l.unwrap();
         let toks: Vec<&str> = l.split_whitespace().collect();
-        if toks.is_empty() {
+        if toks.is_empty() || toks[0].starts_with('#') {
             continue;
         }
         let obs: String = if toks[0] == "case" {
